@@ -39,4 +39,35 @@ def c07u8 (a : List String) (obs : String) : String × String :=
     (model, verdict)
   | _ => ("BADOP", "skip")
 
+/-- UTF8Reader.Reset(src) puts the reader back into its initial state (`{}`), so each stream is
+    read by a fresh model reader; the oracle judges each stream on its own bytes. -/
+def c07u8r (a : List String) (obs : String) : String × String :=
+  match a with
+  | [hexs, k, sizes, fin] =>
+    let streams := (hexs.splitOn "/").map fun h => if h == "-" then "" else h
+    let sz := ((parseInts sizes).map Int.toNat).toArray
+    let one (hex : String) : String :=
+      let s := mkSrc2 (if hex == "" then "-" else hex) k fin
+      let r := (u8Loop {} s sz 0 0).replace " " ","
+      s!"{r},gv={b2s (wfUtf8 (hexOr hex))}"
+    let model := "|".intercalate (streams.map one)
+    let judge (hex item : String) : Option String :=
+      let wf := wfUtf8 (hexOr hex)
+      let f := item.splitOn ","
+      let cls := f.getD 1 ""
+      let valid := f.getD 2 "" == "valid=1"
+      if (f.getD 4 "" == "gv=1") != wf then some "go-utf8.Valid-disagrees-with-Table-3-7"
+      else if cls == "utf8" then (if wf then some "valid-stream-reported-invalid-after-Reset" else none)
+      else if cls == "eof" then (if valid == wf then none else some "Valid()-after-Reset-differs-from-Table-3-7")
+      else if cls == "fail" then none
+      else some "unexpected-class"
+    let items := obs.splitOn "|"
+    let verdict :=
+      if items.length != streams.length then "bad:format"
+      else match (streams.zip items).filterMap fun (h, it) => judge h it with
+        | [] => "ok"
+        | e :: _ => s!"bad:{e}"
+    (model, verdict)
+  | _ => ("BADOP", "skip")
+
 end Ws.Driver
